@@ -198,7 +198,7 @@ def execute(case):
                     data = open(target, encoding="utf8").read()
                     body_file = clidrv.split_header(data)[1]
                     body_out = clidrv.split_header(so0)[1]
-                    if body_file + "\n" != body_out:
+                    if body_file.rstrip("\n") != body_out.rstrip("\n"):      # trailing newlines of the printed stream are not part of the text
                         V("file_differs_from_printed_text", f"file {body_file[-120:]!r} / stdout {body_out[-120:]!r}")
                     if clidrv.split_header(data)[0] is None:
                         V("file_lacks_header", data[:80])
